@@ -76,7 +76,7 @@ def _rand_c06(rng, tier, sc0):
     n = 200 if tier == "quick" else 4000
     out = []
     for i in range(n):
-        c = G.rand_cfg(rng, modes=("direct", "direct", "buf"), clean=(i % 3 == 0))
+        c = G.rand_cfg(rng, modes=("direct", "direct", "buf"), clean=(i % 3 == 0), parts=(i % 2 == 0))
         c["suffix"] = rng.choice(["log", "log", "trc", "-"])
         if i % 13 == 0:
             c = {"rot": False, "naming": "Num", "mode": c["mode"], "cap": c.get("cap", 64)}
@@ -119,7 +119,7 @@ def _rand_c07(rng, tier, sc0):
     n = 200 if tier == "quick" else 4000
     out = []
     for i in range(n):
-        c = G.rand_cfg(rng, modes=("direct", "direct", "buf", "async"), clean=True)
+        c = G.rand_cfg(rng, modes=("direct", "direct", "buf", "async"), clean=True, parts=(i % 2 == 0))
         c["suffix"] = rng.choice(["log", "txt", "trc", "a", "z", "-", "log"])
         c["crlf"] = False
         c["bg"] = rng.random() < 0.3
@@ -427,6 +427,300 @@ def C15(tier, seed):
         shutil.rmtree(wd, ignore_errors=True)
 
 
-REGISTRY = {"C01": C01, "C06": C06, "C07": C07, "C08": C08, "C09": C09, "C15": C15, "C18": C18}
+def foreign_names(c):
+    """Near-miss names derived from the family pattern of cfg c by mutation operators (all are outside the
+    documented pattern [basename][_discriminant][_infix][.suffix][.gz])."""
+    b = c.get("basename", "app")
+    d = c.get("discr")
+    sfx = c.get("suffix", "log")
+    dot = "" if sfx == "-" else "." + sfx
+    fixed = "_".join([x for x in [b, d] if x])
+    sep = "_" if fixed else ""
+    num = c["naming"] in ("Num", "NumD")
+    inf = ["r00007", "r00000", "r00001"] if num else ["r2030-01-01_00-16-40", "r2029-12-31_23-59-59"]
+    cur = c.get("cur") or ("rCURRENT" if c["naming"] in ("Num", "Ts") else "")
+    out = []
+    i0 = inf[0]
+    if fixed:
+        out += [f"{fixed}X{sep}{i0}{dot}",            # longer basename sharing the prefix
+                f"{fixed}X{i0}{dot}",                 # ... without separator
+                f"{fixed}{i0}{dot}",                  # separator missing
+                f"{fixed}2{sep}{cur or i0}{dot}",
+                f"{fixed[:-1]}{sep}{i0}{dot}" if len(fixed) > 1 else f"zz{sep}{i0}{dot}",   # shorter basename
+                f"{fixed}_other{sep}{i0}{dot}",       # other discriminant
+                f"{fixed}{sep}{dot}" if dot else f"{fixed}{sep}x",                          # empty infix
+                f"{fixed}\u00e9{sep}{i0}{dot}",      # multi-byte character at the separator offset
+                f"{fixed}{sep}\u00e9{i0[1:]}{dot}",  # multi-byte character at the infix offset
+                ]
+    out += [f"{fixed}{sep}{i0}.txt2",                 # other suffix
+            f"{fixed}{sep}{i0}{dot}.bak",
+            f"{fixed}{sep}{i0}{dot}.gz.tmp",
+            f"{fixed}{sep}{inf[1]}.extra{dot}",       # extra dots
+            f"{fixed}{sep}{inf[1]}.restart-1{dot}",   # malformed restart part
+            f"{fixed}{sep}{inf[1]}.restart-000x{dot}",
+            f"{fixed}{sep}r2d2{dot}",                 # infix-like fragments
+            f"{fixed}{sep}rabbit{dot}",
+            f"{fixed}{sep}{i0}x{dot}",
+            f"{fixed}{sep}x{i0}{dot}",
+            f"{fixed}{sep}{i0[:-1]}\u00e9{dot}",     # multi-byte character inside the infix
+            f"{fixed}{sep}r2030-13-45_99-99-99{dot}" if not num else f"{fixed}{sep}r0000x{dot}",
+            ]
+    if cur:
+        out += [f"{fixed}{sep}{cur}x{dot}", f"{fixed}{sep}{cur}{dot}.gz", f"{fixed}{sep}x{cur}{dot}"]
+    if dot:
+        out += [f"{fixed}{sep}{i0}"]                  # suffix missing
+    if fixed and c.get("rot", True):
+        out += [f"{fixed}{dot}"] if dot else []       # the non-rotating name
+    # no duplicates, nothing that is a family name
+    seen, res = set(), []
+    for n in out:
+        if n and n not in seen:
+            seen.add(n)
+            res.append(n)
+    return res
+
+
+def _c14_pair(grp, c, t0, steps, origin, sc0):
+    """reference run (Nop instead of creating foreign files) + run with foreign files"""
+    names = foreign_names(c)
+    pre_ref = [{"op": "Nop"} for _ in names] + [{"op": "Nop"}]
+    pre_for = [{"op": "ExtCreate", "name": n, "content": f"foreign {j}\n" * (j % 3 + 1)} for j, n in enumerate(names)]
+    sub = c.get("basename", "app")
+    far = (("_".join([x for x in [c.get("basename", "app"), c.get("discr")] if x]) + "_") if (c.get("basename", "app") or c.get("discr")) else "") \
+        + ("r00099" if c["naming"] in ("Num", "NumD") else "r2001-01-01_00-00-00") + ("" if c.get("suffix", "log") == "-" else "." + c.get("suffix", "log"))
+    pre_for.append({"op": "ExtCreate", "name": far, "dir": True})   # a sub-directory named like a rotated file
+    a = {"sc": sc0, "grp": grp, "cfg": c, "t0": t0, "steps": pre_ref + steps, "origin": origin, "tag": {"role": "ref"}}
+    b = {"sc": sc0 + 1, "grp": grp, "cfg": c, "t0": t0, "steps": pre_for + steps, "origin": origin,
+         "tag": {"role": "foreign"}}
+    return [a, b]
+
+
+def _c14_steps(rng, c):
+    steps = []
+    sels = [{"plain": True}, {"plain": True, "cur": True, "gz": True}, {"plain": False, "gz": True},
+            {"plain": False, "cur": True}]
+    for r in range(rng.choice([1, 2, 3])):
+        h = [{"op": "Start", "append": rng.random() < 0.5}]
+        for _ in range(rng.choice([2, 6, 15])):
+            x = rng.random()
+            if x < 0.15:
+                h.append({"op": "Trigger"})
+            elif x < 0.3:
+                h.append({"op": "Adv", "dt": rng.choice([1, 1, 60, 86400])})
+            elif x < 0.4:
+                h.append({"op": "Elf", "sel": rng.choice(sels)})
+            h.append({"op": "Log", "len": max(9, rng.choice([9, 10, 11, 21, 40, min(c.get("size", 10), 500) + 1]))})
+        h.append({"op": "Elf", "sel": rng.choice(sels)})
+        h.append({"op": "Stop"})
+        steps += h
+    return steps
+
+
+def C14(tier, seed):
+    import json
+    import os
+    import random
+    import shutil
+    import time
+    from . import common as C
+    t0 = time.time()
+    pid = "C14"
+    wd = C.workdir(pid)
+    try:
+        build_s = C.build_harness()
+        states = transitions = 0
+        mc_stats = []
+        for cfg in (["MCFlw_C07q.cfg"] if tier == "quick" else ["MCFlw_C07t.cfg", "MCFlw_C06q.cfg"]):
+            r = C.run_tlc("MCFlw.tla", os.path.join(C.SPEC, cfg), os.path.join(wd, "mc-" + cfg), workers=8, timeout=2400)
+            if r["violated"]:
+                raise C.ToolError(f"Flw/{cfg} violates {r['violated']}")
+            mc_stats.append({"cfg": cfg, "states": r["states"], "transitions": r["transitions"], "wall_s": r["wall_s"]})
+            states += r["states"]
+            transitions += r["transitions"]
+            C.log(f"[C14] TLC {cfg}: {r['states']} distinct states; the model lists and cleans family names only "
+                  f"(foreign names are outside `dir` by construction)")
+        scens = []
+        rng = random.Random(seed)
+        grp = 0
+        nmodel = 0
+        for gcfg in (["MCFlw_C07gen.cfg", "MCFlw_C06gen.cfg"]):
+            r = C.run_tlc("MCFlw.tla", os.path.join(C.SPEC, gcfg), os.path.join(wd, "gen-" + gcfg), workers=4, timeout=900)
+            reps = C.drop_prefixes(C.replay_lines(r))
+            states += r["states"]
+            transitions += r["transitions"]
+            random.Random(seed + 1).shuffle(reps)
+            lim = 1500 if tier == "quick" else 20000
+            for m in G.model_to_scenarios(reps[:lim], origin="tlc:" + gcfg):
+                if any(st["op"] == "ExtRemove" for st in m["steps"]):
+                    continue
+                grp += 1
+                scens += _c14_pair(grp, m["cfg"], m["t0"], m["steps"], m["origin"], len(scens) + 1)
+                nmodel += 1
+        nr = 150 if tier == "quick" else 3000
+        for i in range(nr):
+            c = G.rand_cfg(rng, modes=("direct", "direct", "buf"), clean=(i % 3 != 0), parts=(i % 2 == 0))
+            c["crlf"] = False
+            if c.get("suffix") == "log.1":
+                c["suffix"] = "log"
+            c["link"] = (i % 5 == 0)
+            grp += 1
+            scens += _c14_pair(grp, c, G.boundary_t0(rng), _c14_steps(rng, c), "rand", len(scens) + 1)
+        res = C.run_sharded(pid, "MonC14", scens, wd)
+        C.log(f"[C14] {grp} histories ({nmodel} from TLC, {nr} random), each executed without and with near-miss foreign "
+              f"files: {res['scenarios']} executions / {res['events']} events; judged by MonC14.tla in {res['wall_s']}s; "
+              f"{len(res['bads'])} predicate failures; counters {res['counts']}")
+        viols, known = C.triage(pid, res["bads"], res["traces"], res["scen_files"])
+        for fnd, cnt in known:
+            C.log(f"KNOWN-FINDING: property={pid} {fnd['id']}: {fnd['what']} ({cnt} occurrences)")
+        for v in viols[:10]:
+            C.log(f"VIOLATION property={pid} replay={v['replay']}")
+            C.log(f"   predicate {v['pred']} failed at scenario {v['sc']} event {v['n']}; facts {v['facts']}")
+        cov = {"states": states, "transitions": transitions, "traces_validated_against_impl": res["scenarios"],
+               "events_judged": res["events"], "evaluations": res["scenarios"], "distinct_nontrivial": grp,
+               "rule": "histories = maximal behaviours of the bounded Flw model with cleanup / restarts (seeded sample) plus "
+                       "seeded random histories with name-part combinations, existing_log_files queries and symlink; each "
+                       "executed in a directory without and with ~25 near-miss foreign names derived from the family "
+                       "pattern (longer/shorter basename, other discriminant/suffix, extra dots, missing infix or "
+                       "separator, infix-like fragments, malformed restart parts, multi-byte characters at and inside the "
+                       "infix offset, .gz/.tmp tails, a sub-directory named like a rotated file); distinct = histories",
+               "samples": C.sample_traces(res["traces"], k=2, maxev=10) + [{"foreign_names_example": foreign_names({"naming": "Num"})}],
+               "model_checking_runs": mc_stats, "monitor": "MonC14.tla", "monitor_counters": res["counts"],
+               "predicate_failures": len(res["bads"]),
+               "known_findings_hit": [{"id": f["id"], "count": c} for f, c in known], "exhaustive": False,
+               "harness_build_s": round(build_s, 1)}
+        C.write_evidence(pid, tier, seed, "model_checking", cov,
+                         A_COMMON + ["a name is foreign iff the harness's own strict parser does not recognise it as "
+                                     "[basename][_discriminant]_<infix of the active scheme>[.restart-NNNN][.suffix][.gz]"],
+                         time.time() - t0, len(viols))
+        return 1 if viols else 0
+    finally:
+        shutil.rmtree(wd, ignore_errors=True)
+
+
+C16_PARTS = [
+    {"basename": "app"}, {"basename": ""}, {"basename": "my.prog"}, {"basename": "a_r1", "discr": "d1"},
+    {"basename": "", "discr": "only"}, {"basename": "app", "discr": "foo_bar", "suffix": "trc"},
+    {"basename": "app", "suffix": "-"}, {"basename": "", "suffix": "-"}, {"basename": "x", "discr": "7", "suffix": "-"},
+]
+C16_SELS = [{"plain": True}, {"plain": True, "cur": True, "gz": True}, {"plain": False, "gz": True},
+            {"plain": False, "cur": True}, {"plain": False}, {"plain": True, "custom": "rNOW"}]
+C16_PATHS = [  # (path given to FileSpec::try_from, path of the file relative to the scenario root)
+    ("bare.log", "bare.log"), ("./dot.log", "dot.log"), ("nested/dir/name.ext", "nested/dir/name.ext"),
+    ("noext", "noext"), ("sub/noext", "sub/noext"), (".hidden", ".hidden"), ("d/.hidden.log", "d/.hidden.log"),
+    ("several.dots.in.name.log", "several.dots.in.name.log"), ("a/b.c/d.e.f", "a/b.c/d.e.f"),
+    ("ABS/abs/dir/file.log", "abs/dir/file.log"), ("ABS/top.txt", "top.txt"), ("sp ace/f g.log", "sp ace/f g.log"),
+    ("uml\u00e4ut/\u00fc.log", "uml\u00e4ut/\u00fc.log"),
+]
+
+
+def _c16_decorate(s, j, rng):
+    """name parts, symlink and existing_log_files queries for a history"""
+    c = dict(s["cfg"])
+    c.update(C16_PARTS[j % len(C16_PARTS)])
+    c["link"] = (j % 3 == 0)
+    if j % 7 == 0 and c.get("rot", True) is False:
+        c["use_ts"] = True
+    if c.get("rot", True) is False and not c.get("basename") and "discr" not in c and not c.get("use_ts"):
+        c["basename"] = "plainfile"     # a file name must not be empty
+    steps = []
+    for st in s["steps"]:
+        steps.append(st)
+        if st["op"] in ("Log", "Trigger", "Start", "Adv") and rng.random() < 0.5:
+            steps.append({"op": "Elf", "sel": C16_SELS[rng.randrange(len(C16_SELS))]})
+    s = dict(s)
+    s["cfg"], s["steps"] = c, steps
+    return s
+
+
+def C16(tier, seed):
+    import json
+    import os
+    import random
+    import shutil
+    import time
+    from . import common as C
+    t0 = time.time()
+    pid = "C16"
+    wd = C.workdir(pid)
+    try:
+        build_s = C.build_harness()
+        states = transitions = 0
+        mc_stats = []
+        r = C.run_tlc("MCNames.tla", os.path.join(C.SPEC, "MCNames.cfg"), os.path.join(wd, "mc-names"), workers=1, timeout=300)
+        if r["violated"]:
+            raise C.ToolError(f"Names violates {r['violated']}")
+        C.log("[C16] TLC MCNames.cfg: name pattern injective over 32 part combinations x 16 files x gz (design check)")
+        mc_stats.append({"cfg": "MCNames.cfg", "states": r["states"], "note": "constant-level: 32 part combinations x 16 structural names x gz"})
+        states += r["states"]
+        transitions += r["transitions"]
+        rng = random.Random(seed)
+        scens = []
+        nmodel = 0
+        for gcfg in ["MCFlw_C07gen.cfg", "MCFlw_C09gen.cfg"]:
+            r = C.run_tlc("MCFlw.tla", os.path.join(C.SPEC, gcfg), os.path.join(wd, "gen-" + gcfg), workers=4, timeout=900)
+            reps = C.drop_prefixes(C.replay_lines(r))
+            states += r["states"]
+            transitions += r["transitions"]
+            random.Random(seed + 3).shuffle(reps)
+            lim = 2500 if tier == "quick" else 40000
+            for j, m in enumerate(G.model_to_scenarios(reps[:lim], start_sc=len(scens) + 1, origin="tlc:" + gcfg)):
+                scens.append(_c16_decorate(m, j, rng))
+                nmodel += 1
+        # non-rotating files (with and without start time), custom current infix, clock moving between creation and query
+        for i in range(200 if tier == "quick" else 3000):
+            c = G.rand_cfg(rng, modes=("direct", "buf"), clean=(i % 3 == 0))
+            c["crlf"] = False
+            if i % 4 == 0:
+                c = {"rot": False, "naming": "Num", "mode": "direct", "use_ts": (i % 8 == 0)}
+            steps = [{"op": "Start", "append": False}]
+            for _ in range(rng.choice([2, 5, 12])):
+                x = rng.random()
+                if x < 0.2 and c.get("rot", True):
+                    steps.append({"op": "Trigger"})
+                elif x < 0.45:
+                    steps.append({"op": "Adv", "dt": rng.choice([1, 2, 60, 3600, 86400])})
+                steps.append({"op": "Log", "len": rng.choice([9, 12, 40])})
+            steps.append({"op": "Stop"})
+            if rng.random() < 0.4:
+                steps += [{"op": "Adv", "dt": 5}, {"op": "Start", "append": True}, {"op": "Log", "len": 12}, {"op": "Stop"}]
+            scens.append(_c16_decorate({"sc": len(scens) + 1, "cfg": c, "t0": G.boundary_t0(rng), "steps": steps,
+                                        "origin": "rand"}, i, rng))
+        npaths = 0
+        for (pth, exp) in C16_PATHS:
+            scens.append({"sc": len(scens) + 1, "cfg": {"rot": False, "naming": "Num"}, "t0": 1000, "origin": "path-catalogue",
+                          "steps": [{"op": "FromPath", "path": pth, "expect": exp}], "tag": {"path": pth}})
+            npaths += 1
+        res = C.run_sharded(pid, "MonC16", scens, wd)
+        C.log(f"[C16] executed {res['scenarios']} scenarios / {res['events']} events ({nmodel} from TLC, {npaths} try_from paths); "
+              f"judged by MonC16.tla in {res['wall_s']}s; {len(res['bads'])} predicate failures; counters {res['counts']}")
+        viols, known = C.triage(pid, res["bads"], res["traces"], res["scen_files"])
+        for fnd, cnt in known:
+            C.log(f"KNOWN-FINDING: property={pid} {fnd['id']}: {fnd['what']} ({cnt} occurrences)")
+        for v in viols[:10]:
+            C.log(f"VIOLATION property={pid} replay={v['replay']}")
+            C.log(f"   predicate {v['pred']} failed at scenario {v['sc']} event {v['n']}; facts {v['facts']}")
+        cov = {"states": states, "transitions": transitions, "traces_validated_against_impl": res["scenarios"],
+               "events_judged": res["events"], "evaluations": res["scenarios"],
+               "distinct_nontrivial": len({json.dumps([s["cfg"], s["steps"]], sort_keys=True) for s in scens}),
+               "rule": "behaviours of the bounded Flw model (cleanup/compression/restarts; age rotation with a moving clock) "
+                       "decorated with 9 name-part combinations (basename given/empty/dotted, discriminant, suffix "
+                       "given/none), a symlink, and existing_log_files queries with 6 selectors after random steps; random "
+                       "histories incl. non-rotating files with start time; FileSpec::try_from over a path catalogue "
+                       "(bare name, ./x, nested, no extension, dot files, several dots, absolute, spaces, non-ASCII)",
+               "samples": C.sample_traces(res["traces"], k=2, maxev=10),
+               "model_checking_runs": mc_stats, "monitor": "MonC16.tla", "monitor_counters": res["counts"],
+               "predicate_failures": len(res["bads"]),
+               "known_findings_hit": [{"id": f["id"], "count": c} for f, c in known], "exhaustive": False,
+               "harness_build_s": round(build_s, 1)}
+        C.write_evidence(pid, tier, seed, "model_checking", cov,
+                         A_COMMON + ["an empty discriminant and a suffix containing a dot are not covered",
+                                     "expected names are constructed in TLA+ (Names.tla) from the configured parts and the "
+                                     "harness's own rendering of the parsed instants"], time.time() - t0, len(viols))
+        return 1 if viols else 0
+    finally:
+        shutil.rmtree(wd, ignore_errors=True)
+
+
+REGISTRY = {"C01": C01, "C06": C06, "C07": C07, "C08": C08, "C09": C09, "C14": C14, "C15": C15, "C16": C16, "C18": C18}
 MONITOR = {}
 EXECUTOR = {}
